@@ -88,8 +88,9 @@ theorem c03_remarshal (r : Packet) (buf : Bytes) (p : Packet) (h : pktUnmarshal 
 
 /-- the same as the predicate the driver evaluates on the real code (`c03.mut`, and the second
     conjunct of `c03.wire`): every byte string -/
-theorem c03_remarshal_pred (buf : Bytes) (qs : List UInt8) : Pred.C03.mutOK (Pred.C03.modelObs buf qs) = true := by
-  simp only [Pred.C03.mutOK, Pred.C03.remarshalOK, Pred.C03.modelObs]
+theorem c03_remarshal_pred (buf : Bytes) (qs : List UInt8) :
+    Pred.C03.remarshalOK (Pred.C03.modelObs buf qs) = true := by
+  simp only [Pred.C03.remarshalOK, Pred.C03.modelObs]
   cases hu : pktUnmarshal {} buf with
   | err e => simp [Res.map, Res.coarse]
   | panic => simp [Res.map, Res.coarse]
@@ -167,7 +168,6 @@ theorem c03_wire_pred (w : Wire) (hw : w.WF = true) (hi : w.ignored = 0) (ha : w
   have h1 := c03_accepts_pred w hw hi ha qs
   have h2 := c03_remarshal_pred w.encode qs
   have h3 := c03_accessors_pred w hw hi ha qs
-  simp only [Pred.C03.mutOK] at h2
   simp only [Pred.C03.wire, h1, h2, h3, hw, Bool.not_true, Bool.false_or, Bool.true_and, Bool.or_eq_true,
     Bool.not_eq_true', Pred.C03.canonOK, beq_iff_eq, Bool.and_self]
   by_cases hc : w.canonical = true
@@ -180,6 +180,34 @@ theorem c03_wire_pred (w : Wire) (hw : w.WF = true) (hi : w.ignored = 0) (ha : w
     rw [hpkt] at hun
     simp only [Pred.C03.modelObs, hun, c03_canonical w hc]
   · left; simpa using hc
+
+/-- the predicate of `c03.mut` on the model's observation of ANY byte string: sentence (2) always,
+    and sentence (1) whenever the string is the image of a well-formed description outside the
+    known-finding regions (found by the specification's own decoder `Wire.describe` and re-checked
+    with `Wire.encode`) -/
+theorem c03_mut_pred (buf : Bytes) (qs : List UInt8)
+    (hreg : ∀ w, Wire.describe buf = some w → w.ignored = 0 ∧ w.appbits = false) :
+    Pred.C03.mutOK buf qs (Pred.C03.modelObs buf qs) = true := by
+  simp only [Pred.C03.mutOK]
+  cases hd : Wire.describe buf with
+  | none => exact c03_remarshal_pred buf qs
+  | some w =>
+    obtain ⟨hi, ha⟩ := hreg w hd
+    simp only [Wire.describe] at hd
+    split at hd
+    · rename_i w' hdec
+      split at hd
+      · rename_i hc
+        cases hd
+        simp only [Bool.and_eq_true, beq_iff_eq] at hc
+        have := c03_wire_pred w hc.1 hi ha qs
+        rw [hc.2] at this
+        exact this
+      · cases hd
+    · cases hd
+
+/-- the oracle finds the description of a mutated-looking image: non-vacuity of `c03_mut_pred` -/
+example : (Wire.describe exWire.encode).isSome = true := by decide
 
 example : exWire.canonical = false := by decide
 
